@@ -11,13 +11,42 @@ KINDS = {'thread': ('pyworkers.persistent_thread', 'PersistentThreadWorker'),
          'remote': ('pyworkers.persistent_remote', 'PersistentRemoteWorker')}
 
 
+_ctx_ids = iter(range(7000, 10**9))
+
+
 def mk(kind, sess, target, **kw):
+    """kind 'remote-ctx': a PersistentRemoteWorker created inside a RemoteContext that carries the target and the
+    defaults (the worker is rebuilt on the server by RemoteContext._create_worker, not by its own constructor)"""
+    sess.write_conf(None)
+    if kind == 'remote-ctx':
+        from pyworkers.remote_context import RemoteContext
+        from pyworkers.persistent_remote import PersistentRemoteWorker
+        cid = next(_ctx_ids)
+        ctx = RemoteContext(cid, host=sess.addr(), target=target, args=kw.get('args'), kwargs=kw.get('kwargs'))
+        try:
+            w = PersistentRemoteWorker(None, host=sess.addr(), context=cid, main_path='')
+        except BaseException:
+            watchdog(ctx.wait, 10)
+            raise
+        w._pwv_ctx = ctx
+        return w
     mod, name = KINDS[kind]
     cls = getattr(__import__(mod, fromlist=[name]), name)
     if kind == 'remote':
         kw.update(host=sess.addr(), main_path='')
-    sess.write_conf(None)
     return cls(target, **kw)
+
+
+def drop(w):
+    """end a worker made by mk() and the context it may live in"""
+    try:
+        if w.is_alive():
+            w.terminate(0.5)
+    except Exception:
+        pass
+    c = getattr(w, '_pwv_ctx', None)
+    if c is not None:
+        watchdog(c.wait, 10)
 
 
 def expected(d, kd, e_args, e_kw):
@@ -76,7 +105,7 @@ def main(ctx: Ctx):
         cases.insert(1, ([1, 2, 3], False, {1: 0}, [([10, 20], {1: 7}), ([5], {}), ([], {})]))
         model = ctx.model([model_line(d, kd, e) for d, _, kd, e in cases])
         for ci, (d, as_tuple, kd, enqs) in enumerate(cases):
-            kinds = ['thread', 'process'] + (['remote'] if (T or ci % 6 == 0) else [])
+            kinds = ['thread', 'process'] + (['remote'] if (T or ci % 6 == 0) else []) + (['remote-ctx'] if (T or ci % 6 in (0, 3)) else [])
             exp = [expected(d, kd, a, k) for a, k in enqs]
             shapes = len({(len(a), tuple(sorted(k))) for a, k in enqs})
             for kind in kinds:
@@ -94,11 +123,7 @@ def main(ctx: Ctx):
                     err = f'{type(e).__name__}: {e}'
                     count, herr, st, r, st2 = None, None, None, None, None
                 finally:
-                    try:
-                        if w.is_alive():
-                            w.terminate(0.5)
-                    except Exception:
-                        pass
+                    drop(w)
                 ctx.case((kind, tuple(d), as_tuple, tuple(sorted(kd.items())), repr(enqs)), shapes >= 2,
                          sample={'kind': kind, 'defaults': d, 'tuple': as_tuple, 'kwdefaults': kd, 'enqueues': enqs, 'got': repr(got)[:200]} if (ci * 3) % 37 == 0 else None)
                 ctx.count(kind)
